@@ -63,6 +63,10 @@ class StateView:
     def heap(self, key):
         return self._st.heap.get(key)
 
+    def heap_array(self, key, sort):
+        """the current SMT array of one heap field component, e.g. ("Event.precedence#0", RealSort)"""
+        return self._ex.heap_arr(self._st, key, sort)
+
     def field_of(self, ref, cls, fname):
         """Read Class.field of an arbitrary reference term (for quantified clauses)."""
         return wrap(self._ex, self._st, self._ex.read_field(self._st, ty.ObjV(ref, cls), fname))
@@ -115,6 +119,10 @@ class SeqView:
 
     def comp(self, k=0):
         return self._v.arrs[k]
+
+    @property
+    def v(self):
+        return self._v
 
 
 class MapView:
